@@ -184,6 +184,28 @@ pub fn probes(names: usize) -> Vec<(String, Box<dyn Fn(Ex) -> Ex>)> {
 			Ex::Local(vec![Bind::Var("fv".into(), f)], bx(Ex::If(bx(Ex::Bin(BinOp::Eq, bx(std_call("type", vec![var("fv")])), bx(s("function")))), bx(call(var("fv"), vec![])), Some(bx(s("not a function"))))))
 		})));
 	}
+	// equality against a twin in which one field is hidden and another visible field takes its place: same number of
+	// visible fields, every visible field of the one side readable (hidden) in the other
+	for ni in 0..names.min(2) {
+		let n = NAMES[ni];
+		for flip in [false, true] {
+			v.push((
+				format!("twin-hidden {n} {}", if flip { "twin == o" } else { "o == twin" }),
+				Box::new(move |o| {
+					let twin = Ex::Bin(
+						BinOp::Add,
+						bx(o.clone()),
+						bx(Ex::Obj(vec![field(n, false, Vis::Hidden, Ex::SuperDot(n.to_owned())), field("zzq", false, Vis::Normal, num(0.0))])),
+					);
+					if flip {
+						Ex::Bin(BinOp::Eq, bx(twin), bx(o))
+					} else {
+						Ex::Bin(BinOp::Eq, bx(o), bx(twin))
+					}
+				}),
+			));
+		}
+	}
 	v.push(("objectFields".into(), Box::new(|o| std_call("objectFields", vec![o]))));
 	v.push(("objectFieldsAll".into(), Box::new(|o| std_call("objectFieldsAll", vec![o]))));
 	v.push(("objectValues".into(), Box::new(|o| std_call("objectValues", vec![o]))));
